@@ -31,7 +31,7 @@ RULE = ('2-4 real clients on the real built-in bus; 1-2 exporters with generated
         'with arbitrary read splitting and stalls')
 STATE_MEASURE = 'distinct (clients, proxy kind, calls in flight, outcome kind) tuples'
 PROBES = ['proxy-introspected', 'proxy-explicit', 'proxy-by-name', 'three-calls-in-flight',
-          'two-callers-one-exporter', 'participant-attached-after-another-left', 'remote-error-mirrored', 'call-to-second-exporter',
+          'two-callers-one-exporter', 'participant-attached-after-another-left', 'name-handed-over-then-introspected-again', 'remote-error-mirrored', 'call-to-second-exporter',
           'same-serial-two-clients', 'exporter-calls-itself-through-bus', 'big-endian-foreign-call', 'implementation-answers-later',
           'late-answers-out-of-order', 'proxy-with-reordered-or-partial-interfaces',
           'proxy-call-without-interface', 'proxy-introspected-replacing-cache',
@@ -93,8 +93,9 @@ def scenario(ctx):
     invocations = {}      # (exporter name, sender unique, serial) -> rec
     services = []
 
-    for ei, e in enumerate(exporters):
+    def make_exporter(e, tag, path=None):
         cl = e['proto']
+        fixed_path = path
 
         def hook(obj, mspec, args, caller, e=e):
             key = (e['name'],) + current.get(e['name'], (None, None))
@@ -130,6 +131,8 @@ def scenario(ctx):
             raise cls(text)
 
         orig = cl.methodCallReceived
+        if getattr(orig, 'traced_by_c11', False):
+            orig = orig.orig
 
         def traced(mcall, orig=orig, e=e):
             current[e['name']] = (mcall.sender, mcall.serial)
@@ -137,18 +140,24 @@ def scenario(ctx):
                 return orig(mcall)
             finally:
                 current.pop(e['name'], None)
+        traced.traced_by_c11 = True
+        traced.orig = orig
         cl.methodCallReceived = traced
 
-        def build(e=e, ei=ei, hook=hook, cl=cl):
-            base = objgen.class_spec(ds, 'XB%d' % ei, n_ifaces=1) if ds.flag(0.3) else None
-            cs = objgen.class_spec(ds, 'X%d' % ei, with_base=base)
+        def build(e=e, hook=hook, cl=cl):
+            base = objgen.class_spec(ds, tag[0] + 'B' + tag[1:], n_ifaces=1) if ds.flag(0.3) else None
+            cs = objgen.class_spec(ds, tag, with_base=base)
             txi = objgen.build_tx_ifaces(cs)
             klass = objgen.build_class(cs, hook, txi)
-            path = ds.pick(['/svc', '/', '/a/b'])
+            path = fixed_path or ds.pick(['/svc', '/', '/a/b'])
             o = klass(path)
             cl.exportObject(o)
             return cs, path
-        cs, path = rig.call(e, build)
+        return rig.call(e, build)
+
+    for ei, e in enumerate(exporters):
+        cl = e['proto']
+        cs, path = make_exporter(e, 'X%d' % ei)
         wk = 'org.sim.svc%d' % ei
         nm = Obs(sim, 'name%d' % ei).watch(rig.call(e, cl.requestBusName, wk))
         services.append({'exp': e, 'cs': cs, 'path': path, 'name': wk, 'nm': nm})
@@ -169,14 +178,14 @@ def scenario(ctx):
     rounds = [1 + ds.choose(5 if ctx.tier == 'thorough' else 3)]
     budget = [0]
 
-    def get_proxy(c, s):
-        kind = ds.pickw([('introspect', 5), ('explicit', 3), ('by-name', 2)])
+    def get_proxy(c, s, force_kind=None):
+        kind = force_kind or ds.pickw([('introspect', 5), ('explicit', 3), ('by-name', 2)])
         # whether this caller's cache holds an outdated definition for this service is decided
         # once per (caller, service): then every introspection of it asks for replacement
         ck = (c['name'], s['name'])
         if ck not in stale_cache:
             stale_cache[ck] = ds.flag(0.2)
-        if kind == 'introspect' and stale_cache[ck]:
+        if kind == 'introspect' and stale_cache[ck] and not force_kind:
             kind = 'introspect-replace'
         p = {'owner': c, 'svc': s, 'kind': kind, 'prox': None, 'failed': None}
         descs = list(s['cs'].all_ifaces())
@@ -209,7 +218,7 @@ def scenario(ctx):
                 for d in descs:
                     gen.tx_interface(d, register=True)
                 ifs = [d.name for d in descs]
-            dest = s['name'] if ds.flag(0.7) else rig.unique(s['exp'])
+            dest = s['name'] if force_kind or ds.flag(0.7) else rig.unique(s['exp'])
             p['dest'] = dest
             d = cl.getRemoteObject(dest, s['path'], ifs, replace)
             d.addCallbacks(lambda prox: p.__setitem__('prox', prox),
@@ -285,7 +294,7 @@ def scenario(ctx):
                 foreign_call()
             ops.append(('foreign', fop))
         if budget[0] > 0:
-            ready = [p for p in proxies if p['prox'] is not None]
+            ready = [p for p in proxies if p['prox'] is not None and not p.get('retired')]
             if ready:
                 def op():
                     budget[0] -= 1
@@ -332,8 +341,53 @@ def scenario(ctx):
         sim.probe('exporter-calls-itself-through-bus')
     if any(p['svc'] is services[-1] for p in proxies) and len(services) > 1:
         sim.probe('call-to-second-exporter')
+    handover = ds.flag(0.25)
+    if handover:
+        rounds[0] += 1
+
+    def do_handover():
+        # a well-known name changes hands between rounds: the owner gives it up, another
+        # connection acquires it and exports a different object at the same path; callers ask for
+        # the object again (by introspection, without asking for cached definitions to be replaced)
+        s = services[ds.choose(len(services))]
+        cand = [c for c in clients if c not in exporters]
+        if not cand:
+            return
+        new = cand[ds.choose(len(cand))]
+        old = s['exp']
+        sim.log('op', 'handover', s['name'], old['name'], new['name'])
+        rel = Obs(sim, 'release').watch(rig.call(old, old['proto'].releaseBusName, s['name']))
+        rig.calm()
+        cs2, path2 = make_exporter(new, 'Y%d' % services.index(s), path=s['path'])
+        acq = Obs(sim, 'acquire').watch(rig.call(new, new['proto'].requestBusName, s['name']))
+        rig.calm()
+        if not (acq.fired and acq.fired[0][0] == 'ok' and acq.fired[0][1] == 1):
+            raise Violation('C11/request-name', 'successor', 'successor could not acquire %s: %r / %r'
+                            % (s['name'], rel.fired, acq.fired))
+        exporters.append(new)
+        s2 = {'exp': new, 'cs': cs2, 'path': s['path'], 'name': s['name'], 'nm': acq}
+        services[services.index(s)] = s2
+        owners = []
+        for p in proxies:
+            if p['svc'] is s and p.get('dest') == s['name']:
+                p['retired'] = True
+                if p['owner'] not in owners and p['kind'].startswith('introspect'):
+                    owners.append(p['owner'])
+        for c in owners or callers[:1]:
+            get_proxy(c, s2, force_kind='introspect')
+        sim.probe('name-handed-over-then-introspected-again')
+        sched.run(300, None, invariant)
+        sched.drain(600, None, invariant)
+        for p in proxies:
+            if p['svc'] is s2 and p['prox'] is None:
+                raise Violation('C11/proxy-failed', 'after handover',
+                                '%s could not obtain a proxy for %s %s after the name changed hands: %r'
+                                % (p['owner']['name'], p['dest'], s2['path'], p['failed'] and p['failed'].value))
+
     while rounds[0] > 0:
         rounds[0] -= 1
+        if handover and rounds[0] == 0:
+            do_handover()
         budget[0] = 1 + ds.choose(5 if ctx.tier == 'thorough' else 3)
         sim.step = 0
         sched.run(400, extra, invariant)
